@@ -13,7 +13,7 @@ R10.5 the only GuestRegionMmap aggregate sits behind the base+size overflow test
 import re
 
 from ..mir import deep_strip, tstr, strip_generics, canon, subterms, is_call, Type
-from .. import effects, witness
+from .. import effects, witness, derives
 from ..pat import P, K, V, C, F, AGG, OKP, BIN, CLO, TUP, FN, ANY, ALT, match, closure_ret, unref
 
 CONFIGS = ("FULL", "XEN")
@@ -81,12 +81,16 @@ def rule_aggregates(ctx, prog, eff):
         root = prog.by_id.get(b.root, b)
         derived = bool(root.j.get("impl_derived"))
         ok = derived or (root.self_adt == MM and root.name in allowed)
+        if not ok and root.impl_trait == "std::clone::Clone" and root.self_adt == MM:
+            # a hand-written Clone that does what the derive does (field-wise clone of self): the same sequence of the same regions
+            ok, _why = derives.like_derive(prog, MM, "std::clone::Clone")
+            derived = ok
         sub = False
         if not ok and root.self_adt == MM and b is root:
             sub = _subsequence_of_self(b, pos, s)
             ok = sub
         ctx.ob("R10.1.who_constructs", f"{b.key}", ok, b.where(s["ln"]),
-               "GuestMemoryMmap value built in " + ("a derived Default/Clone impl" if derived else root.name) +
+               "GuestMemoryMmap value built in " + ("a derived Default/Clone impl (or its field-wise hand-written equivalent)" if derived else root.name) +
                (" from a vector that only receives clones of the items of one pass over self.regions, in order: a subsequence of a sorted, "
                 "disjoint sequence is sorted and disjoint" if sub else "") +
                ("" if ok else " — a map constructed outside the validating constructor / remove_region may be unsorted or overlapping"))
